@@ -247,12 +247,15 @@ class Ctx:
         self._group[self._find(syms[0])].append(cond)
 
     def remember(self, cond, val: bool) -> None:
-        self.known[cond.get_id()] = val
+        # the term is stored with the verdict: AST ids are only unique among live terms
+        self.known[cond.get_id()] = (cond, val)
         if z3.is_not(cond):
-            self.known[cond.arg(0).get_id()] = not val
+            inner = cond.arg(0)
+            self.known[inner.get_id()] = (inner, not val)
 
     def lookup(self, cond) -> Optional[bool]:
-        return self.known.get(cond.get_id())
+        hit = self.known.get(cond.get_id())
+        return None if hit is None else hit[1]
 
 
 CUR: Optional[Ctx] = None
@@ -328,7 +331,7 @@ def choose_value(term, cap: int = 40) -> int:
         return term.as_signed_long()
     kv = c.known.get(("v", term.get_id()))
     if kv is not None:
-        return kv
+        return kv[1]
     c.stats.branches += 1
     if c.pos < len(c.prefix):
         d = c.prefix[c.pos]
@@ -338,7 +341,7 @@ def choose_value(term, cap: int = 40) -> int:
         v = d[1]
         c.taken.append(d)
         c.add(term == v)
-        c.known[("v", term.get_id())] = v
+        c.known[("v", term.get_id())] = (term, v)
         return v
     vals = []
     sl = c.sliced_solver(free_syms(term))
@@ -369,7 +372,7 @@ def choose_value(term, cap: int = 40) -> int:
     c.pos += 1
     c.taken.append(("v", v))
     c.add(term == v)
-    c.known[("v", term.get_id())] = v
+    c.known[("v", term.get_id())] = (term, v)
     return v
 
 
